@@ -190,11 +190,16 @@ package utils
 //@ pure
 //@ ensures result == fileSize && result >= 0
 
+// isEOFErr(err): the error chain of err ends in io.EOF
+//@ ghost func isEOFErr(err iface) bool
+//@ globalfact #eofIsEOF: isEOFErr(goio.EOF)
+
 //@ func errors.Is
 //@ trusted "stdlib: true when err itself is the target (chains not modelled: weaker facts only)"
 //@ pure
 //@ ensures #self: (err != nil && err == target) ==> result
 //@ ensures #nil: err == nil ==> !result
+//@ ensures #eof: target == goio.EOF ==> result == (err != nil && isEOFErr(err))
 
 //@ func errors.As
 //@ trusted "stdlib: false for a nil error, true when err itself has the target's type (chains not modelled)"
